@@ -7,6 +7,7 @@ CONSTANTS
   MaxLen = 0
   Waits = {}
   Groups <- NoGroups
+  SampledGroups = {}
   Tolerant = FALSE
 INVARIANTS BarrierOrderInv WaitcntSoundInv EndAfterMemoryInv CountersExactInv CompletionOnceInv CompletionAfterLastInv NoHangInv ValuesInv PathInv BarrierOrder CountersExact EndAfterMemory CompletionOnce
 CONSTRAINT Mark
